@@ -1,3 +1,77 @@
+/* fam/algo: algorithm.hpp / numeric.hpp over pointer iterators (C06).
+ *   <fn>    kind=U  contract mode: the function contract + loop contract of contracts.spec enforced on the real tetl function,
+ *                   ranges of ghost length vf_n (<= 10^6), ghost indices vf_k/vf_j stand for "for all k".
+ *   <fn>_b  kind=B  bounded stand-in (len <= 4, all element values symbolic): the full postcondition against a plain
+ *                   reference loop; replayable natively, guards against a wrong contract.                                   */
 void _ZN3etl14assert_handlerINS_10assert_msgEEEvRKT_(struct etl_assert_msg *m) { __CPROVER_assert(0, "C05: assert_handler fired on valid input"); __CPROVER_assume(0); }
-/*@GROUP name=find props=C06,C02 kind=U mode=contract enforce=etl_find_int loops=1@*/
-void h_find(void) { int *f, *l, *v; vf_n = nondet_ulong(); vf_k = nondet_ulong(); etl_find_int(f, l, v); VF_REACH(); }
+#define GH() do { vf_n = nondet_ulong(); vf_m = nondet_ulong(); vf_k = nondet_ulong(); vf_j = nondet_ulong(); vf_p = nondet_ulong(); vf_q = nondet_ulong(); } while (0)
+#define P3(x) ((x) % 3 == 0)
+#define OP1(x) ((int)((unsigned)(x) * 2u + 1u))
+#define OP2(x, y) ((int)((unsigned)(x) * 3u + (unsigned)(y)))
+#define MAXB 4
+/* bounded stand-ins: symbolic length n <= MAXB, exact-size buffer a (copy of a_in) */
+#define IN1(a, n) VF_INPUT(unsigned long, n); VF_BUF(int, a, n, MAXB)
+#define UNCHANGED(a, n) for (unsigned long i_ = 0; i_ < (n); ++i_) VF_ASSERT(a[i_] == a##_in[i_], "C06: range is not modified")
+
+/*@GROUP name=find props=C06,C02 kind=U mode=contract enforce=etl_find loops=1 standin=find_b@*/
+void h_find(void) { int *f, *l, *v; GH(); etl_find(f, l, v); VF_REACH(); }
+/*@GROUP name=find_b props=C06,C02 kind=B bound=len<=4 unwind=6@*/
+void h_find_b(void) { IN1(a, n); VF_INPUT(int, v); int *r = find_int(a, a + n, &v);
+  unsigned long i = 0; while (i < n && a_in[i] != v) ++i;
+  VF_ASSERT(r == a + i, "C06: find returns the first match, or last"); UNCHANGED(a, n); VF_REACH(); }
+
+/*@GROUP name=find_if props=C06,C02 kind=U mode=contract enforce=etl_find_if loops=1 standin=find_if_b@*/
+void h_find_if(void) { int *f, *l; struct vf_pred3 p; GH(); etl_find_if(f, l, p); VF_REACH(); }
+/*@GROUP name=find_if_b props=C06,C02 kind=B bound=len<=4 unwind=6@*/
+void h_find_if_b(void) { IN1(a, n); int *r = find_if_p3(a, a + n);
+  unsigned long i = 0; while (i < n && !P3(a_in[i])) ++i;
+  VF_ASSERT(r == a + i, "C06: find_if returns the first match, or last"); UNCHANGED(a, n); VF_REACH(); }
+
+/*@GROUP name=find_if_not props=C06,C02 kind=U mode=contract enforce=etl_find_if_not loops=1 standin=find_if_not_b@*/
+void h_find_if_not(void) { int *f, *l; struct vf_pred3 p; GH(); etl_find_if_not(f, l, p); VF_REACH(); }
+/*@GROUP name=find_if_not_b props=C06,C02 kind=B bound=len<=4 unwind=6@*/
+void h_find_if_not_b(void) { IN1(a, n); int *r = find_if_not_p3(a, a + n);
+  unsigned long i = 0; while (i < n && P3(a_in[i])) ++i;
+  VF_ASSERT(r == a + i, "C06: find_if_not returns the first non-match, or last"); UNCHANGED(a, n); VF_REACH(); }
+
+/*@GROUP name=all_of props=C06,C02 kind=U mode=contract enforce=etl_all_of replace=etl_find_if_not standin=all_of_b@*/
+void h_all_of(void) { int *f, *l; struct vf_pred3 p; GH(); etl_all_of(f, l, p); VF_REACH(); }
+/*@GROUP name=all_of_b props=C06,C02 kind=B bound=len<=4 unwind=6@*/
+void h_all_of_b(void) { IN1(a, n); _Bool r = all_of_p3(a, a + n);
+  _Bool e = 1; for (unsigned long i = 0; i < n; ++i) if (!P3(a_in[i])) e = 0;
+  VF_ASSERT(r == e, "C06: all_of"); UNCHANGED(a, n); VF_REACH(); }
+
+/*@GROUP name=any_of props=C06,C02 kind=U mode=contract enforce=etl_any_of replace=etl_find_if standin=any_of_b@*/
+void h_any_of(void) { int *f, *l; struct vf_pred3 p; GH(); etl_any_of(f, l, p); VF_REACH(); }
+/*@GROUP name=any_of_b props=C06,C02 kind=B bound=len<=4 unwind=6@*/
+void h_any_of_b(void) { IN1(a, n); _Bool r = any_of_p3(a, a + n);
+  _Bool e = 0; for (unsigned long i = 0; i < n; ++i) if (P3(a_in[i])) e = 1;
+  VF_ASSERT(r == e, "C06: any_of"); UNCHANGED(a, n); VF_REACH(); }
+
+/*@GROUP name=none_of props=C06,C02 kind=U mode=contract enforce=etl_none_of replace=etl_find_if standin=none_of_b@*/
+void h_none_of(void) { int *f, *l; struct vf_pred3 p; GH(); etl_none_of(f, l, p); VF_REACH(); }
+/*@GROUP name=none_of_b props=C06,C02 kind=B bound=len<=4 unwind=6@*/
+void h_none_of_b(void) { IN1(a, n); _Bool r = none_of_p3(a, a + n);
+  _Bool e = 1; for (unsigned long i = 0; i < n; ++i) if (P3(a_in[i])) e = 0;
+  VF_ASSERT(r == e, "C06: none_of"); UNCHANGED(a, n); VF_REACH(); }
+
+/*@GROUP name=count props=C06,C02 kind=U mode=contract enforce=etl_count loops=1 standin=count_b@*/
+void h_count(void) { int *f, *l, *v; GH(); etl_count(f, l, v); VF_REACH(); }
+/*@GROUP name=count_b props=C06,C02 kind=B bound=len<=4 unwind=6@*/
+void h_count_b(void) { IN1(a, n); VF_INPUT(int, v); long r = count_int(a, a + n, &v);
+  long e = 0; for (unsigned long i = 0; i < n; ++i) if (a_in[i] == v) ++e;
+  VF_ASSERT(r == e, "C06: count returns the number of elements equal to value"); UNCHANGED(a, n); VF_REACH(); }
+
+/*@GROUP name=count_if props=C06,C02 kind=U mode=contract enforce=etl_count_if loops=1 standin=count_if_b@*/
+void h_count_if(void) { int *f, *l; struct vf_pred3 p; GH(); etl_count_if(f, l, p); VF_REACH(); }
+/*@GROUP name=count_if_b props=C06,C02 kind=B bound=len<=4 unwind=6@*/
+void h_count_if_b(void) { IN1(a, n); long r = count_if_p3(a, a + n);
+  long e = 0; for (unsigned long i = 0; i < n; ++i) if (P3(a_in[i])) ++e;
+  VF_ASSERT(r == e, "C06: count_if returns the number of elements satisfying the predicate"); UNCHANGED(a, n); VF_REACH(); }
+
+/*@GROUP name=for_each props=C06,C02 kind=U mode=contract enforce=etl_for_each loops=1 standin=for_each_b@*/
+void h_for_each(void) { int *f, *l; struct vf_mut1 m; GH(); etl_for_each(f, l, m); VF_REACH(); }
+/*@GROUP name=for_each_b props=C06,C02 kind=B bound=len<=4 unwind=6@*/
+void h_for_each_b(void) { IN1(a, n); for_each_mut(a, a + n);
+  for (unsigned long i = 0; i < n; ++i) VF_ASSERT(a[i] == OP1(a_in[i]), "C06: for_each applies f to every element exactly once");
+  VF_REACH(); }
